@@ -251,7 +251,7 @@ func (s *Scenario) Instantiate() *Instance {
 			if j == -1 {
 				in.Behs[i].InitLookups = append(in.Behs[i].InitLookups, "?no-such-component")
 			}
-			if j >= 0 && j < len(s.Nodes) && j != i {
+			if j >= 0 && j < len(s.Nodes) { // j == i: a component that fetches itself from the container in its own Init
 				nm, _ := model.NameOf(in.Comps[j])
 				in.Behs[i].InitLookups = append(in.Behs[i].InitLookups, nm)
 			}
